@@ -80,7 +80,7 @@ theorem compGEs_correct (C : Ctx D) (QC : QCtx D) (hN : QC.N = C.N) (hev : QC.ev
     (hcollT : ∀ name, B.collType name = QC.collType name) :
     ∀ (es : List GE) (n : Nat) (s : St D) (vs : List (Val D)),
       DeclsDoneA C.N ((compGEs B nm es n).flatMap (·.decls)) s.env →
-      (∀ e ∈ es, wtGE e = true ∧ ∀ g ∈ aggsGE e, AggTyped QC g) →
+      (∀ e ∈ es, wtGE e = true ∧ ∀ g ∈ aggsGE e, AggHyp QC g) →
       denotes QC [("e", evtVal)] (es.map (geQ "e")) = .ok vs →
       ∃ s', execs C ((compGEs B nm es n).flatMap (·.stmts)) s = .ok s' ∧ s'.rows = s.rows ∧
         ValsReady C.N (compGEs B nm es n) vs s'.env ∧
@@ -214,7 +214,7 @@ theorem aggRows_correct (B : Backend) (hB : BackendOK B) (nm cn : Nat → String
     (hinj : ∀ i j, nm i = nm j → i = j) (hcinj : ∀ i j, cn i = cn j → i = j)
     (hres : ∀ j, nm j ≠ "result") (hcres : ∀ k, cn k ≠ "result") (hdisj : ∀ j k, nm j ≠ cn k)
     (QC : QCtx D) (hcollT : ∀ name, B.collType name = QC.collType name)
-    (cols : AQ) (hhyp : ∀ p ∈ cols, wtGE p.2 = true ∧ ∀ g ∈ aggsGE p.2, AggTyped QC g)
+    (cols : AQ) (hhyp : ∀ p ∈ cols, wtGE p.2 = true ∧ ∀ g ∈ aggsGE p.2, AggHyp QC g)
     (σc : Env D) (hσ : ∀ k, k < cols.length → (σc (cn k)).isSome = true)
     (rows : List (List (Val D)))
     (hden : denoteRows QC (AQ.toQuery cols) = .ok rows) :
